@@ -70,7 +70,7 @@ pub enum Obs {
     /// the session waits for the next external event (macrostep complete)
     Idle,
     /// <send> handed to the SCXML processor: (event, target, delay ms, sendid)
-    Sent { event: String, target: String, delay_ms: u64 },
+    Sent { event: String, target: String, delay_ms: u64, sendid: Option<String>, params: Option<Vec<(String, String)>> },
     Cancelled(String),
     /// configuration after a microstep / start-up (real: snapshot of GlobalData.configuration)
     Config(BTreeSet<String>),
@@ -347,6 +347,9 @@ pub struct Interp<'a> {
     /// parent is active and is not exited by the microstep)
     pub micro_info: Vec<(usize, bool)>,
     pub quirk_hits: Vec<&'static str>,
+    pub gen_ids: u32,
+    /// index into `out` where exitInterpreter started (termination phase)
+    pub term_start: Option<usize>,
 }
 
 const MAX_MICROSTEPS: usize = 2000;
@@ -371,6 +374,8 @@ impl<'a> Interp<'a> {
             pending_sendids: BTreeSet::new(),
             micro_info: Vec::new(),
             quirk_hits: Vec::new(),
+            gen_ids: 0,
+            term_start: None,
         }
     }
 
@@ -605,13 +610,21 @@ impl<'a> Interp<'a> {
                     false
                 }
             },
-            Exec::Send { event, target, delay_ms, id, params } => {
+            Exec::Send { event, target, delay_ms, id, params, idlocation, .. } => {
                 let mut pv = Vec::new();
                 for (k, e) in params {
                     match self.eval(e) {
                         Ok(v) => pv.push((k.clone(), v)),
                         Err(_) => self.error_execution(), // the param is ignored
                     }
+                }
+                let mut sendid = id.clone();
+                if let Some(loc) = idlocation {
+                    // the platform generates an id and stores it; its value is platform-chosen
+                    self.gen_ids += 1;
+                    let g = format!("<generated:{}>", self.gen_ids);
+                    self.data.insert(loc.clone(), Val::Str(g.clone()));
+                    sendid = Some(g);
                 }
                 let tgt = target.clone().unwrap_or_default();
                 if tgt == "#_internal" {
@@ -620,7 +633,7 @@ impl<'a> Interp<'a> {
                         return false;
                     }
                     let mut ev = EvIn::named(event, "internal");
-                    ev.sendid = id.clone();
+                    ev.sendid = sendid;
                     ev.origin = Some(format!("#_scxml_{}", self.session_id));
                     ev.origintype = Some("http://www.w3.org/TR/scxml/#SCXMLEventProcessor".into());
                     if !pv.is_empty() {
@@ -630,16 +643,25 @@ impl<'a> Interp<'a> {
                     return true;
                 }
                 if *delay_ms > 0 {
-                    if let Some(i) = id {
+                    if let Some(i) = &sendid {
                         self.pending_sendids.insert(i.clone());
                     }
                 }
-                self.out.push(Obs::Sent { event: event.clone(), target: tgt, delay_ms: *delay_ms });
+                let ps = if pv.is_empty() { None } else { Some(pv.iter().map(|(k, v)| (k.clone(), val_to_string(v))).collect()) };
+                self.out.push(Obs::Sent { event: event.clone(), target: tgt, delay_ms: *delay_ms, sendid, params: ps });
                 true
             }
-            Exec::Cancel { sendid } => {
-                self.pending_sendids.remove(sendid);
-                self.out.push(Obs::Cancelled(sendid.clone()));
+            Exec::Cancel { sendid, by_expr } => {
+                let id = match by_expr {
+                    Some(v) => match self.data.get(v) {
+                        Some(Val::Str(s)) => s.clone(),
+                        Some(other) => val_to_string(other),
+                        None => return true,
+                    },
+                    None => sendid.clone(),
+                };
+                self.pending_sendids.remove(&id);
+                self.out.push(Obs::Cancelled(id));
                 true
             }
         }
@@ -1058,6 +1080,7 @@ impl<'a> Interp<'a> {
 
     fn exit_interpreter(&mut self) {
         let m: &'a Model<'a> = self.m;
+        self.term_start = Some(self.out.len());
         let mut order: Vec<usize> = self.config.iter().copied().collect();
         order.sort();
         order.reverse();
